@@ -172,7 +172,8 @@ def run(repo: Repo, rep: Report, tier: str) -> None:
     # ---- state machine -------------------------------------------------------
     from ..timer_model import explore
     rep.rule("state-machine", "after every sequence of <= 3 operations from both initial states, expired equals the reference predicate (abstract interpretation over linear forms)")
-    checked, mism, unknown = explore(ci, clock_kind, mod, depth=3)
+    depth = 5 if tier == "thorough" else 3
+    checked, mism, unknown = explore(ci, clock_kind, mod, depth=depth)
     rep.counters["operation sequences explored"] = checked
     for seq, got, want in mism[:6]:
         rep.fail("state-machine", "timer.Timer", seq, f"after this sequence expired is `{got}` but the property requires `{want}` (more than the timeout elapsed since the last start; a stopped timer reports the state it had when stopped)", mod=mod, node=ci.node)
